@@ -320,7 +320,7 @@ class C06(Check):
                 slack = tr_slack(X, list(r.decomp))
                 if slack > atol:
                     ctx.count("tr-iterate-with-huge-cancelling-cores:tolerance-widened-to-rounding-bound")
-            ok = abs(errs[-1] - te) <= atol * max(1.0, te if algo == "cmtf" else 1.0) + slack
+            ok = abs(errs[-1] - te) <= atol * max(1.0, te) + slack  # (relative to the value once it exceeds 1: diverged runs report 1e7)
             if algo == "cmtf" and not ok:
                 ok = abs(errs[-1] - 0.5 * te) <= atol * max(1.0, te)
             stopped_early = how != "cap" and len(errs) < 40
@@ -344,14 +344,14 @@ class C06(Check):
                     M = itm.cp_dense(w, fs)
                     rr = itm.Result("cp", None, None, M, {"sparse": sp})
                     te_cb = true_error(algo, X, rr, judge_cfg)
-                    if not np.isfinite(e) or abs(e - te_cb) > atol:
+                    if not np.isfinite(e) or abs(e - te_cb) > atol * max(1.0, te_cb):
                         ctx.violation(f"{tag}/callback-error-not-error-of-callback-decomposition",
                                       f"{case}: n_iter_max={k} ({how}): callback call #{j} got error {e!r}, recomputed {te_cb!r}")
                         break
             if algo == "randomised_parafac" and r.extra.get("callback_iterates"):
                 for j, (e, w_, fs_) in enumerate(r.extra["callback_iterates"]):
                     te_cb = itm.relerr(X, itm.cp_dense(w_, fs_))
-                    if not np.isfinite(e) or abs(e - te_cb) > atol:
+                    if not np.isfinite(e) or abs(e - te_cb) > atol * max(1.0, te_cb):
                         ctx.violation(f"{tag}/callback-error-not-error-of-callback-decomposition",
                                       f"{case}: callback call #{j} (after the initial one) got error {e!r}, recomputed {te_cb!r}")
                         break
@@ -359,7 +359,7 @@ class C06(Check):
                 for j, (e, cores) in enumerate(r.extra["callback_iterates"]):
                     te_cb = itm.relerr(X, itm.tr_dense(cores))
                     atol_tr = atol + tr_slack(X, cores)
-                    if not np.isfinite(e) or abs(e - te_cb) > atol_tr:
+                    if not np.isfinite(e) or abs(e - te_cb) > atol_tr * max(1.0, te_cb):
                         ctx.violation(f"{tag}/callback-error-not-error-of-callback-decomposition",
                                       f"{case}: callback call #{j} got error {e!r}, recomputed {te_cb!r}")
                         break
